@@ -18,7 +18,7 @@ META = {
                    "R15.perfile (the per-file call receives only this file's content, the index and the pattern), R15.retain (the accumulator of analyze_dir and the lists in it are only the receiver of grow-only operations, so what was recorded for one file survives the processing of every other entry). A function of its arguments only, with no shared "
                    "state, gives the same result under any co-selection, repetition or thread interleaving.",
     "assumptions": ["solang_parser::parse and regex are pure functions of their arguments (dependency code is not analysed)"],
-    "floors": {"R15.effects": 3, "R15.fileno": 3, "R15.perfile": 3, "R15.order": 10, "R15.siblings": 3, "R15.retain": 3, "R15.render": 3},
+    "floors": {"R15.effects": 3, "R15.fileno": 3, "R15.perfile": 3, "R15.order": 10, "R15.siblings": 3, "R15.retain": 3, "R15.render": 3, "R15.position": 1},
 }
 
 EFFECT_PREFIXES = ("std::fs::", "std::env::", "std::time::", "std::process::", "std::net::", "std::thread::", "std::io::", "rand::", "std::sync::",
@@ -194,7 +194,9 @@ def run(ctx, crate):
                       not bad and n > 0 and w.acc[0] != "phi", expected="entry / or_insert / push / append / extend with the accumulator as receiver",
                       found=bad or "%d uses, all grow-only" % n,
                       example="dir/A.sol listed before dir/sub/: the merge of sub's findings must leave A.sol's in place"))
-    # whether a category's findings are rendered does not depend on the other categories' findings (C12's category guards)
+    # a file is analysed whatever its position in the listing and whatever is listed before it (C16's whole-listing obligations)
+    obs.append(depend.inherited(ctx, crate, "R15.position", "analyze_dir x3", "every entry of a listing is considered, whatever precedes it (C16's obligations on the loop over the listing)",
+                                "C16", lambda o: o.rule in ("R16.loops", "R16.before"), example="the same file listed first, or after a hidden entry"))
     obs.append(depend.inherited(ctx, crate, "R15.parts", "report::generation::generate_report", "a category's part depends on that category's findings only (C12's obligations)",
                                 "C12", lambda o: o.rule == "R12.category", example="vulnerabilities selected together with optimizations = []"))
     # a file's entries survive rendering whatever other files are reported: the generators render every (file, lines) pair they are handed (C11's loop obligations)
